@@ -14,6 +14,7 @@
 #include "message.h"
 #include "protocol.h"
 #include "socket.h"
+#include "taskq.h"
 
 typedef struct device_data_s device_data;
 typedef struct device_path_s device_path;
@@ -38,6 +39,7 @@ struct device_data_s {
 	int           rv;
 	bool          owned;
 	device_path   paths[2];
+	nni_task      done_task; // closes the sockets, completes the user
 	nni_reap_node reap;
 };
 
@@ -60,6 +62,7 @@ device_fini(void *arg)
 	for (int i = 0; i < d->num_paths; i++) {
 		nni_aio_fini(&d->paths[i].aio);
 	}
+	nni_task_fini(&d->done_task);
 	NNI_FREE_STRUCT(d);
 }
 
@@ -74,6 +77,30 @@ device_close(device_data *d)
 	if (d->paths[0].dst != d->paths[0].src) {
 		nni_sock_close_device(d->paths[0].dst);
 	}
+}
+
+// The last path has ended: close the sockets (if we own them), complete
+// the user's operation and dispose of the device.  This runs as a task of
+// its own and never from device_cb: a protocol may run device_cb
+// synchronously from the completion callback of one of its pipes, and
+// closing a socket waits for the callbacks of its pipes to finish.
+static void
+device_done(void *arg)
+{
+	device_data *d = arg;
+	nni_aio     *user;
+	nng_err      err;
+
+	nni_mtx_lock(&device_mtx);
+	user    = d->user;
+	err     = d->rv;
+	d->user = NULL;
+	nni_mtx_unlock(&device_mtx);
+	device_close(d);
+	if (user != NULL) {
+		nni_aio_finish_error(user, err);
+	}
+	nni_reap(&device_reap, d);
 }
 
 static void
@@ -131,16 +158,8 @@ device_cb(void *arg)
 			}
 		}
 		if (d->running == 0) {
-			nni_aio *user = d->user;
-			nng_err  err  = d->rv;
-
-			d->user = NULL;
 			nni_mtx_unlock(&device_mtx);
-			device_close(d);
-			if (user != NULL) {
-				nni_aio_finish_error(user, err);
-			}
-			nni_reap(&device_reap, d);
+			nni_task_dispatch(&d->done_task);
 			return;
 		}
 		nni_mtx_unlock(&device_mtx);
@@ -247,6 +266,7 @@ device_init(device_data **dp, nni_sock *s1, nni_sock *s2)
 	}
 	d->num_paths = num_paths;
 	d->owned     = false;
+	nni_task_init(&d->done_task, NULL, device_done, d);
 	*dp          = d;
 	return (0);
 }
